@@ -610,8 +610,14 @@ def feed(ctx):
     denm_const = P.module("facilities.local_dynamic_map.ldm_constants").consts.get("DENM")
 
     def is_denm_id(mod, e):
-        r = P.resolve_expr_entity(mod, e) if e is not None else None
-        return isinstance(r, tuple) and r[0] == "const" and denm_const is not None and r[2] is denm_const
+        if e is None or denm_const is None:
+            return False
+        r = P.resolve_expr_entity(mod, e)
+        if isinstance(r, tuple) and r[0] == "const" and r[2] is denm_const:
+            return True
+        # by value (the loader reads numeric module constants as their values)
+        want = P.try_fold(P.module("facilities.local_dynamic_map.ldm_constants"), denm_const)
+        return want is not None and P.try_fold(mod, e) == want
     ok_obj = False
     ak = {}
     if len(add) == 1:
